@@ -19,4 +19,8 @@ CLAIMED = {
    text="Exploration: with the fluid left at its defaults, uup4, theta, theta/shear tensors (all 16 components), shear2, vorticity and the acceleration (incl. its normal component) are observed on members with time-dependent lapse, shift and sheared metrics and compared with n^mu, -K, -A_ij, A^2, 0 and D_i ln(alpha).",
    note="Trusted base as C04.",
    ref="2 C19"),
+ "C10": dict(engine="jets", technique="runtime oracle monitoring: Weyl tensor in both cache states, E/B, Weyl scalars on the returned tetrad, tetrad orthonormality and invariants vs exact Weyl from metric jets; two-grid convergence verdict",
+   text="Exploration: st_Weyl_down4 is observed on a fresh instance (E/B construction) and after st_Riemann_down4 was cached (Riemann construction), on non-vacuum members with general gauge and on gauge-transformed Minkowski/Kasner with vacuum=True; E/B (n- and u-frame), the five Weyl scalars for both tetrad choices, triad/Lorentz orthonormality, I and J against a randomly Lorentz-rotated harness tetrad, and the Levi-Civita tensors are judged per component class.",
+   note="Trusted base as C04; E/B sign conventions are those of the documented u-frame contractions; quasi-Kinnersley invariants judged only on alpha=1, beta=0 members and off the polar axis.",
+   ref="2 C10"),
 }
